@@ -299,9 +299,16 @@ theorem C30_timeidx_prealloc_witness (h : PREALLOC_CAP = none) :
   simp only [preallocRequest, h]
   decide
 
-example : C30_timeidx_roundtrip [1,2] [3] [⟨5, 2⟩, ⟨-1, 7⟩, ⟨5, 1⟩] (by decide) (by decide) =
-    C30_timeidx_roundtrip [1,2] [3] [⟨5, 2⟩, ⟨-1, 7⟩, ⟨5, 1⟩] (by decide) (by decide) := rfl
-example : (appendTrack [⟨5, 2⟩, ⟨-1, 7⟩, ⟨5, 1⟩]).1 = [⟨-1, 7⟩, ⟨5, 1⟩, ⟨5, 2⟩] := by decide
-example : ∃ e, readTrack (trackBytes [⟨5, 2⟩, ⟨-1, 7⟩]) 0 44 = .error e := ⟨.unsorted, by decide⟩
+instance (e : Entry) : Decidable (InRange e) := by unfold InRange; infer_instance
+
+example : (∀ e ∈ [(⟨-1, 7⟩ : Entry), ⟨5, 1⟩, ⟨5, 2⟩], InRange e) ∧ [(⟨-1, 7⟩ : Entry), ⟨5, 1⟩, ⟨5, 2⟩].length * 16 < 2^64 := by
+  refine ⟨?_, by decide⟩
+  intro e he
+  simp only [List.mem_cons, List.not_mem_nil, or_false] at he
+  rcases he with rfl | rfl | rfl <;> decide
+example : (match readTrack ([9] ++ trackBytes [⟨-1, 7⟩, ⟨5, 1⟩, ⟨5, 2⟩] ++ [3]) 1 60 with
+    | .ok es => decide (es = [⟨-1, 7⟩, ⟨5, 1⟩, ⟨5, 2⟩]) | .error _ => false) = true := by decide
+example : (match readTrack (trackBytes [⟨5, 2⟩, ⟨-1, 7⟩]) 0 44 with
+    | .error .unsorted => true | _ => false) = true := by decide
 
 end Mv.TimeIndex
